@@ -217,6 +217,8 @@ func (x *Exec) atReturn(fr *Frame, st *State, ctx *FuncCtx, sig *types.Signature
 	}
 	if ctx.Contract.Pure {
 		x.pureFrame(fr, st, ctx)
+	} else if len(ctx.Contract.Assigns) > 0 {
+		x.assignsFrame(fr, st, ctx)
 	}
 	x.onFuncExit(fr, st, ctx, env)
 	// canary: this return must be reachable under the contract's assumptions
@@ -286,5 +288,39 @@ func (x *Exec) pureFrame(fr *Frame, st *State, ctx *FuncCtx) {
 			goal = Forall([]*Term{a}, Implies(Select(Var("alloc0", ArrOf(SBool)), a), Eq(Select(cur, a), Select(init, a))))
 		}
 		x.oblige(fr, st, "frame", "pure/"+key, goal, nil)
+	}
+}
+
+// assignsFrame: a function with an assigns clause leaves every heap array that
+// matches none of its patterns unchanged at the addresses allocated at entry.
+func (x *Exec) assignsFrame(fr *Frame, st *State, ctx *FuncCtx) {
+	matches := func(key string) bool {
+		for _, a := range ctx.Contract.Assigns {
+			if strings.HasPrefix(a, "ghost:") || a == "nothing" {
+				continue
+			}
+			if strings.Contains(key, a) {
+				return true
+			}
+		}
+		return false
+	}
+	if st.havocked && len(st.lazyHavoc) == 0 {
+		x.oblige(fr, st, "frame", "assigns/havoc", TFalse, nil)
+		return
+	}
+	for _, key := range st.heapKeys() {
+		if matches(key) {
+			continue
+		}
+		cur := st.heap[key]
+		if cur.Op == "var" && strings.HasPrefix(cur.Name, "H0_") {
+			continue
+		}
+		init := Var("H0_"+sanitize(key), cur.Sort)
+		x.quantN++
+		a := Var(fmt.Sprintf("qa_%d", x.quantN), SInt)
+		goal := Forall([]*Term{a}, Implies(Select(Var("alloc0", ArrOf(SBool)), a), Eq(Select(cur, a), Select(init, a))))
+		x.oblige(fr, st, "frame", "assigns/"+key, goal, nil)
 	}
 }
